@@ -740,10 +740,10 @@ Qed.
 
 (* ---- T14.1: no match => the source, byte for byte ---- *)
 Theorem no_match_identity (valid : text -> bool) (equiv : text -> text -> bool) (wrap : range -> bool)
-        (mlstr : text -> bool) (restore : text -> text -> text) (src tmpl : text) (coms : option (list nat))
-        (count : Z) :
+        (mlstr : text -> bool) (strl : text -> list nat) (restore : text -> text -> text) (src tmpl : text)
+        (coms : option (list nat)) (count : Z) :
   (forall s, restore s s = s) ->
-  subn_items src tmpl count [] = Some []
+  subn_items strl src tmpl count [] = Some []
   /\ subn_output valid equiv wrap mlstr restore src coms [] = src.
 Proof.
   intros Hr. split.
@@ -1033,4 +1033,139 @@ Proof.
   rewrite Forall_forall in Hok. specialize (Hok _ Hin). unfold range_ok in Hok. cbn [fst] in Hok.
   rewrite <- sched_ignored_is_has_ignore by lia.
   exact (scheduled_not_ignored text text_eqb text_cmp (sched_ilines src coms) items e He).
+Qed.
+
+(* ======================================================================================== *)
+(* T14.10: the indentation steps (find_replace, format_template) never touch a line that     *)
+(* begins inside a string literal                                                            *)
+(* ======================================================================================== *)
+
+(* the test of the generator expression in find_replace / format_template *)
+Definition line_kept (blanks : bool) (strl : list nat) (i : nat) (l : text) : bool :=
+  Nat.eqb i 0 || existsb (Nat.eqb i) strl || (negb blanks && negb (nonblank l)).
+
+Lemma indent_lines_nth (blanks : bool) (k : nat) (strl : list nat) (ls : list text) : forall i j,
+  nth_error (indent_lines blanks k strl i ls) j
+  = option_map (fun l => if line_kept blanks strl (i + j) l then l else spaces k ++ l) (nth_error ls j).
+Proof.
+  induction ls as [|l tl IH]; intros i j.
+  - destruct j; reflexivity.
+  - destruct j as [|j]; cbn [indent_lines nth_error option_map].
+    + rewrite Nat.add_0_r. reflexivity.
+    + rewrite IH. replace (S i + j) with (i + S j) by lia. reflexivity.
+Qed.
+
+Lemma indent_lines_length (blanks : bool) (k : nat) (strl : list nat) (ls : list text) : forall i,
+  length (indent_lines blanks k strl i ls) = length ls.
+Proof. induction ls as [|l tl IH]; intros i; cbn [indent_lines length]; [reflexivity | rewrite IH; reflexivity]. Qed.
+
+Lemma existsb_eqb_in (j : nat) (l : list nat) : In j l -> existsb (Nat.eqb j) l = true.
+Proof. intros H. apply existsb_exists. exists j. split; [exact H | apply Nat.eqb_refl]. Qed.
+
+Theorem indent_lines_string_lines_verbatim (blanks : bool) (k : nat) (strl : list nat) (ls : list text) (j : nat) :
+  In j strl -> nth_error (indent_lines blanks k strl O ls) j = nth_error ls j.
+Proof.
+  intros Hin. rewrite indent_lines_nth. cbn [Nat.add]. unfold line_kept.
+  rewrite (existsb_eqb_in j strl Hin), orb_true_r. cbn [orb].
+  destruct (nth_error ls j); reflexivity.
+Qed.
+
+(* str.split("\n") of "\n".join(lines) gives the lines back when no line contains "\n" *)
+Definition no_nl (l : text) : Prop := ~ In NL l.
+
+Lemma split_nl_aux_app (l : text) : forall cur rest,
+  no_nl l -> split_nl_aux cur (l ++ rest) = split_nl_aux (rev l ++ cur) rest.
+Proof.
+  induction l as [|c tl IH]; intros cur rest Hn; [reflexivity|].
+  cbn [app split_nl_aux]. destruct (c =? NL)%Z eqn:E.
+  - apply Z.eqb_eq in E. exfalso. apply Hn. left. exact E.
+  - rewrite IH by (intros H; apply Hn; right; exact H).
+    cbn [rev]. rewrite <- app_assoc. reflexivity.
+Qed.
+
+Lemma split_nl_aux_join (ls : list text) : forall l cur,
+  Forall no_nl (l :: ls) -> split_nl_aux cur (join_nl (l :: ls)) = (rev cur ++ l) :: ls.
+Proof.
+  induction ls as [|l2 tl IH]; intros l cur Hn.
+  - cbn [join_nl]. rewrite <- (app_nil_r l) at 1. rewrite split_nl_aux_app by (inversion Hn; assumption).
+    cbn [split_nl_aux]. rewrite rev_app_distr, rev_involutive. reflexivity.
+  - change (join_nl (l :: l2 :: tl)) with (l ++ NL :: join_nl (l2 :: tl)).
+    rewrite split_nl_aux_app by (inversion Hn; assumption).
+    cbn [split_nl_aux]. rewrite Z.eqb_refl. rewrite rev_app_distr, rev_involutive.
+    rewrite IH by (inversion Hn; assumption). reflexivity.
+Qed.
+
+Lemma split_join_nl (ls : list text) : ls <> [] -> Forall no_nl ls -> split_nl (join_nl ls) = ls.
+Proof.
+  intros Hne Hn. destruct ls as [|l tl]; [contradiction|].
+  unfold split_nl. rewrite split_nl_aux_join by exact Hn. reflexivity.
+Qed.
+
+Lemma split_nl_aux_no_nl (s : text) : forall cur, no_nl cur -> Forall no_nl (split_nl_aux cur s).
+Proof.
+  induction s as [|c tl IH]; intros cur Hc; cbn [split_nl_aux].
+  - constructor; [|constructor]. intros H. apply in_rev in H. exact (Hc H).
+  - destruct (c =? NL)%Z eqn:E.
+    + constructor; [intros H; apply in_rev in H; exact (Hc H)|]. apply IH. intros [].
+    + apply IH. intros [H|H]; [apply Z.eqb_neq in E; congruence | exact (Hc H)].
+Qed.
+
+Lemma split_nl_no_nl (s : text) : Forall no_nl (split_nl s).
+Proof. apply split_nl_aux_no_nl. intros []. Qed.
+
+Lemma split_nl_aux_nonempty (s : text) : forall cur, split_nl_aux cur s <> [].
+Proof. induction s as [|c tl IH]; intros cur; cbn [split_nl_aux]; [discriminate|]. destruct (c =? NL)%Z; [discriminate | apply IH]. Qed.
+
+Lemma spaces_no_nl (k : nat) : no_nl (spaces k).
+Proof. induction k as [|k IH]; [intros [] | intros [H|H]; [discriminate H | exact (IH H)]]. Qed.
+
+Lemma indent_lines_no_nl (blanks : bool) (k : nat) (strl : list nat) (ls : list text) : forall i,
+  Forall no_nl ls -> Forall no_nl (indent_lines blanks k strl i ls).
+Proof.
+  induction ls as [|l tl IH]; intros i Hn; cbn [indent_lines]; [constructor|].
+  inversion Hn as [|? ? Hl Htl]; subst. constructor; [|apply IH; exact Htl].
+  destruct (_ || _ || _); [exact Hl|]. intros H. apply in_app_or in H. destruct H as [H|H];
+    [exact (spaces_no_nl k H) | exact (Hl H)].
+Qed.
+
+(* the lines of the text find_replace yields ARE the lines the indentation step produced *)
+Theorem place_replacement_lines (strl : text -> list nat) (src : text) (r : range) (filled : text) :
+  split_nl (place_replacement strl src r filled) = place_lines strl src r filled.
+Proof.
+  unfold place_replacement. apply split_join_nl.
+  - unfold place_lines. intros H. apply (f_equal (@length text)) in H. rewrite indent_lines_length in H.
+    cbn [length] in H. apply length_zero_iff_nil in H. exact (split_nl_aux_nonempty _ _ H).
+  - unfold place_lines. apply indent_lines_no_nl. apply split_nl_no_nl.
+Qed.
+
+(* find_replace: every line of the instantiated (dedented) replacement that the tokenizer reports as
+   beginning inside a string literal is, byte for byte, a line of the yielded text at the same position:
+   whatever the indentation of the matched line, whether the literal stems from the template or from a
+   binding. *)
+Theorem place_replacement_string_lines_verbatim (strl : text -> list nat) (src : text) (r : range) (filled : text) (j : nat) :
+  In j (strl (dedent filled)) ->
+  nth_error (split_nl (place_replacement strl src r filled)) j = nth_error (split_nl (dedent filled)) j.
+Proof.
+  intros Hin. rewrite place_replacement_lines. unfold place_lines.
+  apply indent_lines_string_lines_verbatim. exact Hin.
+Qed.
+
+(* ... and every other line is the line of the dedented text, with the indentation of the matched line in
+   front unless it is the first line or blank *)
+Theorem place_replacement_line_cases (strl : text -> list nat) (src : text) (r : range) (filled : text) (j : nat) :
+  nth_error (split_nl (place_replacement strl src r filled)) j
+  = option_map (fun l => if line_kept false (strl (dedent filled)) j l then l
+                         else spaces (match_indentation src r) ++ l)
+               (nth_error (split_nl (dedent filled)) j).
+Proof. rewrite place_replacement_lines. unfold place_lines. rewrite indent_lines_nth. reflexivity. Qed.
+
+(* format_template: the same for the text of a binding put into an indented slot *)
+Theorem indent_binding_string_lines_verbatim (strl : text -> list nat) (k : nat) (v : text) (j : nat) :
+  In j (strl v) -> nth_error (split_nl (indent_binding strl k v)) j = nth_error (split_nl v) j.
+Proof.
+  intros Hin. unfold indent_binding. rewrite split_join_nl.
+  - apply indent_lines_string_lines_verbatim. exact Hin.
+  - intros H. apply (f_equal (@length text)) in H. rewrite indent_lines_length in H.
+    cbn [length] in H. apply length_zero_iff_nil in H. exact (split_nl_aux_nonempty _ _ H).
+  - apply indent_lines_no_nl. apply split_nl_no_nl.
 Qed.
